@@ -1497,6 +1497,9 @@ func (s *Server) DisconnectClient(cl *Client, code packets.Code) error {
 	// We already have a code we are using to disconnect the client, so we are not
 	// interested if the write packet fails due to a closed connection (as we are closing it).
 	err := cl.WritePacket(out)
+	cl.Lock()
+	_ = cl.flushOutbuf() // the DISCONNECT may have been buffered behind queued publishes: it must go out before the close
+	cl.Unlock()
 	if !s.Options.Capabilities.Compatibilities.PassiveClientDisconnect {
 		cl.Stop(code)
 		if code.Code >= packets.ErrUnspecifiedError.Code {
